@@ -81,6 +81,10 @@ fn do_call(u: &Unimock, m: u32, a: u8) -> String {
         13 => u.u3(a, a + 1).take(),
         #[cfg(feature = "dtrait")]
         14 => u.p_ref(a).take(),
+        #[cfg(feature = "dtrait")]
+        36 => u.hreq(a).take(),
+        #[cfg(feature = "dtrait")]
+        37 => u.hprov(a).take(),
         _ => panic!("harness: no such method {m}"),
     }
 }
